@@ -270,7 +270,11 @@ func (svc *service) stop() {
 
 	svc.conn = nil
 	svc.in = nil
+
+	// Other connections may be inside writeMessage for this service.
+	svc.wmu.Lock()
 	svc.out = nil
+	svc.wmu.Unlock()
 }
 
 func (svc *service) publish(msg *message.PublishMessage, onComplete OnCompleteFunc) error {
